@@ -200,7 +200,7 @@ def _programs(rnd, quick):
                     pats = pats[:1]
                 for p, cls in pats:
                     out.append((net, ver, p, cls))
-                for _ in range(1 if quick else 3):
+                for _ in range(1 if quick else 8):
                     out.append((net, ver, bytes(rnd.randrange(256) for _ in range(n)), "random"))
     return out
 
@@ -216,7 +216,7 @@ def _mutations(rnd, quick):
     mids = [h_addr("mainnet", 0, bytes(32)), h_addr("testnet", 0, bytes(range(32))), h_addr("regtest", 1, bytes(range(32))),
             h_addr("mainnet", 1, b"\xff" * 40), h_addr("testnet", 16, bytes(range(40))), h_addr("mainnet", 0, bytes(20)),
             h_addr("mainnet", 7, bytes(range(7))), h_addr("regtest", 0, b"\xff" * 20)]
-    for _ in range(6 if quick else 60):
+    for _ in range(6 if quick else 120):
         ver = rnd.randrange(17)
         n = rnd.choice([20, 32]) if ver == 0 else rnd.randrange(2, 41)
         mids.append(h_addr(rnd.choice(NETS), ver, bytes(rnd.randrange(256) for _ in range(n))))
@@ -249,7 +249,7 @@ def _mutations(rnd, quick):
     # 2-4 substitutions anywhere (alphabet-heavy, some arbitrary bytes) on short and mid addresses
     for s in shorts + mids:
         for k in (2, 3, 4):
-            for _ in range((12 if quick else 150) if s in shorts else (3 if quick else 30)):
+            for _ in range((12 if quick else 400) if s in shorts else (3 if quick else 80)):
                 m = bytearray(s)
                 for i in rnd.sample(range(len(s)), k):
                     m[i] = rnd.choice(alpha) if rnd.random() < .85 else rnd.randrange(256)
@@ -349,7 +349,7 @@ def _mutations(rnd, quick):
         add(a, "base58check")
         add(a[:-1] + (b"2" if a[-1:] != b"2" else b"3"), "base58check-corrupt")
     # arbitrary byte strings
-    for _ in range(150 if quick else 4000):
+    for _ in range(150 if quick else 20000):
         n = rnd.choice([1, 2, 3, 7, 8, 9, 14, 42, 62, 89, 90, 91, 120]) if rnd.random() < .5 else rnd.randrange(0, 100)
         kind = rnd.random()
         if kind < .35:
